@@ -27,7 +27,7 @@ retype_object_creates_alias_cycle add_object_creates_alias_cycle
 C04_pass_total_partial C04_pass_total_unconditional C04_pass_total_counterexample C04_pass_witnesses
 C04_chain_total_partial C04_chain_panic_blames C04_chain_total_counterexample
 C04_xform_total_partial C04_xform_total_counterexample
-C04_config_total_partial C04_config_total_counterexample C04_config_malformed_as
+C04_config_total_partial C04_config_total_counterexample C04_config_malformed_as C04_hint_object_prefix_panicked
 C04_fromAST_total_partial C04_fromAST_total_counterexample C04_fromAST_diverges_on_alias_cycle
 C04_option_actions_total_partial C04_option_actions_total_counterexample
 C04_parse_total_openapi_partial C04_parse_total_openapi_counterexample C04_parse_openapi_witnesses
@@ -47,7 +47,7 @@ WITNESS_REPLAYS = {
     "C04_parse_jsonschema_witness/tupleItems": ("corpus/jsonschema-tuple-items-draft07", r"walkList"),
     "C04_pass_witnesses/wMixedEnum": ("corpus/jsonschema-mixed-enum", r"enumMemberNameFromValue|sanitizeEnumMember"),
     "C04_pass_witnesses/wDiscriminatorOnScalars": ("corpus/openapi-discriminator-on-scalars", r"buildDiscriminatorMapping"),
-    "C04_config_total_counterexample/retypeThenHint": ("corpus-config/retype-then-hint", r"HintObject"),
+    "C04_config_total_counterexample/retypeThenConstantToEnum": ("corpus-config/constant-to-enum-non-string", r"ConstantToEnum"),
     "retype_object_creates_alias_cycle": ("corpus-config/retype-self-reference", r"recursion:.*Resolve"),
     "add_object_creates_alias_cycle": ("corpus-config/add-object-alias-cycle", r"recursion:.*Resolve"),
     "C04_config_malformed_as": ("corpus-config/retype-object-nil-struct", r"AsStruct|Struct"),
